@@ -74,3 +74,23 @@ async def counter_ok(iterator, results):
 @lru_cache(maxsize=256)
 def cached_bad(location):
     return str(location)
+
+
+def worklist_bad(start, seen):
+    work = [start]
+    while work:
+        item = work.pop()
+        if item in seen:
+            return
+        seen.add(item)
+        work.extend(item.children)
+
+
+def worklist_ok(start, seen):
+    work = [start]
+    while work:
+        item = work.pop()
+        if item in seen:
+            continue
+        seen.add(item)
+        work.extend(item.children)
